@@ -416,6 +416,66 @@ def run(ctx):
                               {"x": repr(x), "group": "hash-drift"})
             except Exception as e:  # noqa: BLE001
                 violation(PROP, "hash-stability", f"hash raised {type(e).__name__} after use", {"x": repr(x)})
+    # objects built in another interpreter (own hash seed, own caches) next to locally built twins
+    if ctx.shard == 0:
+        from ..foreign import NAMESPACE_IMPORTS, foreign_objects
+
+        exprs = [f"parse_version_specifier({t!r})" for t in (">=1.0", ">=1.0,<2", "==1.*", "!=1.5", "<1||>=2", "~=1.2", "", "<empty>", "===abc")] + \
+                [f"GenericSpecifier({o!r}, {l!r})" for o in ("==", "!=", "in", "not in") for l in ("a", "ab", "")] + \
+                [f"parse_marker({t!r})" for t in ('os_name == "a"', '"a" == os_name', 'os_name == "a" or os_name == "b"',
+                                                  'os_name != "a" and os_name != "b"', 'python_version >= "3.8"',
+                                                  'python_version >= "3.8" and os_name == "a"', 'extra == "x" or sys_platform == "y"',
+                                                  'python_version in "3.8, 3.9"', 'python_full_version ~= "3.8.1"')] + \
+                ["AnySpecifier()", "EmptySpecifier()", "RangeSpecifier()", "AnyMarker()", "EmptyMarker()"]
+        far = foreign_objects(exprs)
+        ns: dict = {}
+        exec(NAMESPACE_IMPORTS, ns)  # noqa: S102
+        n_far = 0
+        for e, f in zip(exprs, far):
+            if f is None:
+                ctx.inconclusive["foreign-object-unavailable"] += 1
+                continue
+            n_far += 1
+            bump("foreign-twin")
+            try:
+                x = eval(e, ns)  # noqa: S307
+                ok = (x == f) and (f == x) and hash(x) == hash(f) and ({x: 1}.get(f) == 1) and (x in {f}) and str(x) == str(f)
+            except CaseTimeout:
+                raise
+            except Exception as ex:  # noqa: BLE001
+                violation(PROP, "foreign-twin", f"comparing with an object unpickled from another interpreter raised {type(ex).__name__}",
+                          {"expression": e, "error": str(ex)[:120], "group": "foreign-raise"})
+                continue
+            if not ok:
+                violation(PROP, "foreign-twin", "an object unpickled from another interpreter is not an equal, hash-equal twin "
+                          "of the same object built here", {"expression": e, "eq": bool(x == f), "hash_eq": hash(x) == hash(f),
+                                                             "group": "foreign"})
+        ctx.extra["foreign_objects"] = n_far
+    # copies of used objects (copy, deepcopy, pickle round trip): a copy is the clearest case of "an equal object" -
+    # it must be ==, symmetric, hash-equal and found as a dict/set key of the original, whatever lazily computed
+    # state the original had accumulated
+    import copy
+    import pickle
+
+    for zoo in (ctx.zoo_spec, ctx.zoo_mark):
+        step = max(1, len(zoo) // (150 if ctx.tier == "quick" else 600))
+        for x in zoo[::step]:
+            for how, mk in (("copy", copy.copy), ("deepcopy", copy.deepcopy), ("pickle", lambda o: pickle.loads(pickle.dumps(o)))):
+                bump("copy-twin")
+                try:
+                    y = mk(x)
+                    ok = (x == y) and (y == x) and hash(x) == hash(y) and ({x: 1}.get(y) == 1) and (y in {x}) \
+                        and type(y) is type(x) and str(y) == str(x)
+                except CaseTimeout:
+                    raise
+                except Exception as e:  # noqa: BLE001
+                    violation(PROP, "copy-twin", f"{how} of a used object / comparing with it raised {type(e).__name__}",
+                              {"x": repr(x)[:300], "error": str(e)[:120], "group": "copy-raise"})
+                    continue
+                if not ok:
+                    violation(PROP, "copy-twin", f"a {how} of an object is not an equal, hash-equal, interchangeable twin of it",
+                              {"x": repr(x)[:300], "y": repr(y)[:300], "eq": bool(x == y), "hash_eq": hash(x) == hash(y),
+                               "group": "copy/" + how})
     ctx.extra["zoo_specifiers"] = len(ctx.zoo_spec)
     ctx.extra["zoo_markers"] = len(ctx.zoo_mark)
     if len(ctx.samples) < 4:
